@@ -168,18 +168,23 @@ def kv (ws : List String) (key : String) : Option Int :=
 /-! ### callers suite: each line is one complete call, mapped to model transitions -/
 
 /-- `Acquire` with a live context on a pool where it never has to wait (complete calls,
-    nothing else is held): pop bad idle wires, hand out a good one or dial one. -/
-def acquireNow : Nat → Cfg → St → Option (St × Nat)
-  | 0, _, _ => none
-  | fuel + 1, c, s =>
+    nothing else is held): pop bad idle wires, hand out a good one or dial one. With
+    `dialFails` the dial returns the shared dead wire (`none` = that dead wire was handed out). -/
+def acquireNow : Nat → Cfg → St → Bool → Option (St × Option Nat)
+  | 0, _, _, _ => none
+  | fuel + 1, c, s, dialFails =>
     match s.list with
     | [] => do
       let s1 ← step c s .acqNew
-      let s2 ← step c s1 (.makeRet true true)
-      pure (s2, s.next)
+      if dialFails then
+        let s2 ← step c s1 .makeDead
+        pure (s2, none)
+      else
+        let s2 ← step c s1 (.makeRet true true)
+        pure (s2, some s.next)
     | w :: _ => do
       let s1 ← step c s (.acqPop true)
-      if s1.out.contains w then pure (s1, w) else acquireNow fuel c s1
+      if s1.out.contains w then pure (s1, some w) else acquireNow fuel c s1 dialFails
 
 /-- a complete call on one pool: `fate` = what happens to the wire while it is held. -/
 inductive Fate | fine | failed | untouched
@@ -187,7 +192,8 @@ inductive Fate | fine | failed | untouched
 
 /-- returns the new pool state and whether the wire that was used turned out stale
     (closed by the server while idle: it looks healthy until it is used) -/
-def callOn (c : Cfg) (s : St) (stale : List Nat) (ctxDone : Bool) (fate : Fate) : Option (St × Bool) :=
+def callOn (c : Cfg) (s : St) (stale : List Nat) (ctxDone : Bool) (fate : Fate) (dialFails : Bool := false) :
+    Option (St × Bool) :=
   if ctxDone then do
     let s1 ← step c s .acqCtxDead
     let s2 ← step c s1 .storeCtx
@@ -198,7 +204,14 @@ def callOn (c : Cfg) (s : St) (stale : List Nat) (ctxDone : Bool) (fate : Fate) 
     let s2 ← step c s1 .storeDeadU
     pure (s2, false)
   else do
-    let (s1, w) ← acquireNow 64 c s
+    let (s1, w?) ← acquireNow 64 c s dialFails
+    match w? with
+    | none => do
+      -- failed dial: the counted shared dead wire was handed out; every caller stores it
+      -- (mux.blocking / release directly, the stream callers through pipe.DoStream on the dead pipe)
+      let s2 ← step c s1 .storeDead
+      pure (s2, true)
+    | some w =>
     let isStale := stale.contains w
     if fate == .untouched then
       let s2 ← run c s1 (streamEarlyReturn w)
@@ -243,12 +256,18 @@ def callers (s : Sim) (ws : List String) : Option (Sim × String) :=
     -- the server closes its end of every pool connection: all idle wires are stale now
     some (callersAnswer { s with staleD := s.dp.list ++ s.staleD, staleS := s.sp.list ++ s.staleS } "ok")
   else
-  match callersTable.find? (·.1 == ws) with
+  -- "<op> …dialfail": the same call, but a dial (if one is needed) fails; the client then
+  -- reports the dial error, which falls into the same class as a write on a stale wire
+  let (ws', dialFails) := match ws with
+    | [op, "dialfail"] => ([op, "ok"], true)
+    | [op, "multidialfail"] => ([op, "multi"], true)
+    | _ => (ws, false)
+  match callersTable.find? (·.1 == ws') with
   | none => none
   | some (_, onD, ctxDone, fate, rOk, rStale, rClosed) =>
     let pool := if onD then s.dp else s.sp
     let stale := if onD then s.staleD else s.staleS
-    match callOn s.cfg pool stale ctxDone fate with
+    match callOn s.cfg pool stale ctxDone fate dialFails with
     | none => some (callersAnswer { s with stuck := true } rOk)
     | some (p', wasStale) =>
       let s1 := if onD then { s with dp := p' } else { s with sp := p' }
